@@ -1243,6 +1243,14 @@ def items_C14(tier, seed, P):
                 ops += [{'op': 'drop', 'h': 'ua%d' % k}]
             ops += [{'op': 'drop', 'h': 'h1'}]          # Y is destroyed here (it has no other handle)
             add('neighbour-destroyed a=%d b=%d %s' % (a, b, 'stale' if stale else 'unadopted'), ops + cost_all('h0', 'a'), 2)
+    # (f) the object's only adopter is being destroyed (its count reached zero): from inside the adopter's destructor the adoptee, still
+    #     held by the program, has no adoption left - clone and drop of the handle the dying value holds must cost nothing
+    for a in (1, 2):
+        ops = [{'op': 'new', 'obj': 0, 'as': 'h0'}, {'op': 'new', 'obj': 1, 'as': 'h1'}, {'op': 'extras', 'h': 'h1', 'n': 'e1'}]
+        for k in range(a):
+            ops += [{'op': 'clone', 'h': 'h1', 'as': 'ta%d' % k}, {'op': 'adopt', 'a': 'h0', 'b': 'ta%d' % k}, {'op': 'store', 'via': 'h0', 'h': 'ta%d' % k}]
+        ops += [{'op': 'on_drop', 'obj': 0, 'do': [{'op': 'cost_clone', 'h': '@0', 'as': 'ccd'}, {'op': 'cost_drop', 'h': 'ccd'}]}, {'op': 'drop', 'h': 'h0'}]
+        add('adopter-dying x%d: adoptee handled inside the adopter destructor' % a, ops + cost_all('h1', 'a'), 2)
     # vacuity witness: an object WITH a recorded adoption must be seen to trace
     ops = F.build_ops(2, ring, extras=True) + [{'op': 'cost_clone', 'h': 'h0', 'as': 'cc'}, {'op': 'cost_drop', 'h': 'cc'}]
     add('witness:adopted-object-traces', ops, 2, witness=True)
